@@ -465,6 +465,13 @@ class Program(object):
         if self._cg is not None:
             return self._cg
         ovr = self.overriders()
+        # function objects: constructing an object of a project class that has operator() counts as (possibly) calling it -
+        # comparators handed to std::sort and friends are invoked from library code that is not part of the facts
+        functors = {}
+        for q, r in self.records.items():
+            us = [m["u"] for m in r.get("methods", []) if m.get("n") == "operator()" and m.get("u")]
+            if us:
+                functors[q] = us
         cg = {}
         for key, f in self.funcs.items():
             if f.dep:
@@ -473,6 +480,10 @@ class Program(object):
             callee_ref_ids = set()
             for n in f.nodes():
                 k = n["k"]
+                if k in ("CXXConstructExpr", "CXXTemporaryObjectExpr") and functors:
+                    dd = f.decl(n) or {}
+                    for u_ in functors.get(dd.get("cls") or "", ()):
+                        edges.setdefault(u_, []).append(n)
                 if k in CALL_KINDS:
                     c = n.get("c", [])
                     if k not in ("CXXConstructExpr", "CXXTemporaryObjectExpr") and c and c[0] is not None:
